@@ -7,7 +7,11 @@ import AdaptaVerif.Lemmas.LifecycleFault
 namespace AdaptaVerif.Props.C15
 open AdaptaVerif.Model.Lifecycle AdaptaVerif.Spec.Lifecycle AdaptaVerif.Lemmas.Lifecycle
 
-/-! ### P0 — negative witnesses: documented-legal histories that hit a defect class (K1–K5) -/
+/-! ### P0 — negative witnesses: documented-legal histories that hit a defect class (K1, K2, K4).
+The former classes K3 (re-entrant `processTransaction` with transactions off) and K5 (3-argument
+`ConnRef` constructor with transactions off) were repaired upstream (/repo 448bcee, f871b2f, 3650d5c,
+e0e5881): their witnesses are now legal and fault-free, see
+`formerly_excluded_transactions_off_histories_are_legal_and_fault_free`. -/
 
 /-- K1: `~Router` only frees active objects; a queued, never processed addition leaks. -/
 theorem k1_destroy_with_queued_add_leaks :
@@ -21,34 +25,6 @@ theorem k2_delete_with_queued_add_asserts :
     LegalHist [.newShape 1, .deleteShape 1] = false ∧
     (run [.newShape 1, .deleteShape 1]).faults = [.assertPendingAdd 1] := by decide
 
-/-- K3: transactions off, deleting a junction (which owns a pin) re-enters processTransaction. -/
-theorem k3_transactions_off_delete_junction_reenters :
-    LegalDocHist [.setTransactionUse false, .newJunction 1 2, .deleteJunction 1] = true ∧
-    LegalHist [.setTransactionUse false, .newJunction 1 2, .deleteJunction 1] = false ∧
-    (run [.setTransactionUse false, .newJunction 1 2, .deleteJunction 1]).faults = [.reentry 1] := by
-  decide
-
-/-- K3: transactions off, moving a shape with an attached connector re-enters processTransaction. -/
-theorem k3_transactions_off_move_attached_reenters :
-    LegalDocHist [.setTransactionUse false, .newShape 1, .newPin 2 1 1,
-      .newConn 3 (some ⟨1, 1⟩) none false, .moveShape 1] = true ∧
-    LegalHist [.setTransactionUse false, .newShape 1, .newPin 2 1 1,
-      .newConn 3 (some ⟨1, 1⟩) none false, .moveShape 1] = false ∧
-    (run [.setTransactionUse false, .newShape 1, .newPin 2 1 1,
-      .newConn 3 (some ⟨1, 1⟩) none false, .moveShape 1]).faults = [.reentry 1] := by
-  decide
-
-/-- K3: transactions off, a pin constructor on a shape with an attached connector routes before
-    the pin is complete. -/
-theorem k3_transactions_off_new_pin_on_attached_shape :
-    LegalDocHist [.setTransactionUse false, .newShape 1, .newPin 2 1 1,
-      .newConn 3 (some ⟨1, 1⟩) none false, .newPin 4 1 1] = true ∧
-    LegalHist [.setTransactionUse false, .newShape 1, .newPin 2 1 1,
-      .newConn 3 (some ⟨1, 1⟩) none false, .newPin 4 1 1] = false ∧
-    (run [.setTransactionUse false, .newShape 1, .newPin 2 1 1,
-      .newConn 3 (some ⟨1, 1⟩) none false, .newPin 4 1 1]).faults = [.reentry 4] := by
-  decide
-
 /-- K4: a queued connector-end change names a shape that is deleted in the same transaction. -/
 theorem k4_queued_end_names_deleted_shape :
     LegalDocHist [.newShape 1, .newPin 2 1 1, .newConn 3 none none true, .processTransaction,
@@ -60,11 +36,47 @@ theorem k4_queued_end_names_deleted_shape :
       = [.useAfterFree 1] := by
   decide
 
-/-- K5: `ConnRef(router, src, dst)` with transactions off routes before it is registered. -/
-theorem k5_ctor3_transactions_off :
-    LegalDocHist [.setTransactionUse false, .newConn 1 none none true] = true ∧
-    LegalHist [.setTransactionUse false, .newConn 1 none none true] = false ∧
-    (run [.setTransactionUse false, .newConn 1 none none true]).faults = [.ctorBeforeRegister 1] := by
+/-- The four transactions-off histories that `Legal` used to exclude (former K3: deleting a junction
+    that owns a pin, moving a shape with an attached connector, a pin constructor on a shape with an
+    attached connector; former K5: `ConnRef(router, src, dst)`), each extended to an orderly end, are
+    now strictly legal, raise no fault and leak nothing. -/
+theorem formerly_excluded_transactions_off_histories_are_legal_and_fault_free :
+    (LegalHist [.setTransactionUse false, .newJunction 1 2, .deleteJunction 1, .deleteRouter] = true ∧
+     (run [.setTransactionUse false, .newJunction 1 2, .deleteJunction 1, .deleteRouter]).faults = [] ∧
+     (run [.setTransactionUse false, .newJunction 1 2, .deleteJunction 1, .deleteRouter]).leaked = []) ∧
+    (LegalHist [.setTransactionUse false, .newShape 1, .newPin 2 1 1,
+       .newConn 3 (some ⟨1, 1⟩) none false, .moveShape 1, .deleteRouter] = true ∧
+     (run [.setTransactionUse false, .newShape 1, .newPin 2 1 1,
+       .newConn 3 (some ⟨1, 1⟩) none false, .moveShape 1, .deleteRouter]).faults = [] ∧
+     (run [.setTransactionUse false, .newShape 1, .newPin 2 1 1,
+       .newConn 3 (some ⟨1, 1⟩) none false, .moveShape 1, .deleteRouter]).leaked = []) ∧
+    (LegalHist [.setTransactionUse false, .newShape 1, .newPin 2 1 1,
+       .newConn 3 (some ⟨1, 1⟩) none false, .newPin 4 1 1, .deleteRouter] = true ∧
+     (run [.setTransactionUse false, .newShape 1, .newPin 2 1 1,
+       .newConn 3 (some ⟨1, 1⟩) none false, .newPin 4 1 1, .deleteRouter]).faults = [] ∧
+     (run [.setTransactionUse false, .newShape 1, .newPin 2 1 1,
+       .newConn 3 (some ⟨1, 1⟩) none false, .newPin 4 1 1, .deleteRouter]).leaked = []) ∧
+    (LegalHist [.setTransactionUse false, .newConn 1 none none true, .deleteRouter] = true ∧
+     (run [.setTransactionUse false, .newConn 1 none none true, .deleteRouter]).faults = [] ∧
+     (run [.setTransactionUse false, .newConn 1 none none true, .deleteRouter]).leaked = []) := by
+  decide
+
+/-- The junction-move refresh (`JunctionRef::moveAttachedConns` → `modifyConnector(…,
+    connPinMoveUpdate = true)`, /repo e0e5881) does not overwrite a queued user change: connector 3's
+    source is attached to junction 1; the user queues "source := free point", then moves the junction
+    in the same transaction; afterwards the source is the free point — the user change wins.  Control:
+    without the queued user change the same move re-attaches the source to the junction. -/
+theorem junction_move_keeps_queued_user_endpoint :
+    LegalHist [.newJunction 1 2, .newConn 3 (some ⟨1, 0⟩) none true, .processTransaction,
+      .setEndpoint 3 false none, .moveJunction 1, .processTransaction] = true ∧
+    ((run [.newJunction 1 2, .newConn 3 (some ⟨1, 0⟩) none true, .processTransaction]).conns.find?
+      (·.id == 3)).map (·.src) = some (some { anchor := 1, cls := 0, pin := some 2 }) ∧
+    ((run [.newJunction 1 2, .newConn 3 (some ⟨1, 0⟩) none true, .processTransaction,
+      .setEndpoint 3 false none, .moveJunction 1, .processTransaction]).conns.find?
+      (·.id == 3)).map (·.src) = some none ∧
+    ((run [.newJunction 1 2, .newConn 3 (some ⟨1, 0⟩) none true, .processTransaction,
+      .moveJunction 1, .processTransaction]).conns.find?
+      (·.id == 3)).map (·.src) = some (some { anchor := 1, cls := 0, pin := some 2 }) := by
   decide
 
 /-- A strictly legal history after which the queue holds a ConnectionPinChange entry whose pin has
@@ -91,7 +103,7 @@ example : LegalHist [.setTransactionUse false, .newShape 1, .newConn 2 none none
 
 /-! ### P2 — layer 1: after every documented-legal history the live sets are exactly
 "created minus freed", nothing is freed twice, and no connector end or pin refers to a freed
-obstacle / pin.  (Holds for all documented-legal histories, including those that hit K1–K5:
+obstacle / pin.  (Holds for all documented-legal histories, including those that hit K1, K2, K4:
 the defects are about *when* things are dereferenced, not about the bookkeeping.) -/
 
 theorem live_sets_refine (h : List Op) (hl : LegalDocHist h = true) : LiveSetsRefine (run h) :=
@@ -159,14 +171,16 @@ example : LegalHist [.newShape 1, .newConn 2 none none true, .processTransaction
   decide
 
 /-! ### P5 — a strictly legal history never reaches a point where the C++ would dereference a freed
-object, re-enter `processActions`, or trip one of the internal assertions.  (`Legal` = documented
-preconditions + the restrictions that avoid K1–K5; each restriction is necessary: `k1_…`–`k5_…`.)
+object or trip one of the internal assertions.  (`Legal` = documented preconditions + the
+restrictions that avoid K1, K2, K4; each restriction is necessary: `k1_…`, `k2_…`, `k4_…`.  Transaction
+use may be switched at any time, also with work queued: the next mutator then processes the whole
+queue.)
 
 Invariant carried between operations (`Lemmas.Lifecycle.FOk`): `Core []`, `NoDanglingAction`,
-(a) transactions off ⇒ the queue is empty, (b) an obstacle with a queued removal has no other
-queued obstacle action (pairwise, `RS`), (c) no queued `ConnEnd` names an obstacle with a queued
-removal (`QC`), and `faults = []`.  `processActions_faults` shows that the three passes of
-`Router::processActions` raise no fault on such a queue. -/
+(a) an obstacle with a queued removal has no other queued obstacle action (pairwise, `RS`), (b) no
+queued `ConnEnd` names an obstacle with a queued removal (`QC`), and `faults = []`.
+`processActions_faults` shows that the three passes of `Router::processActions` raise no fault on
+such a queue, whether transactions are on or off. -/
 
 theorem no_fault (h : List Op) (hl : LegalHist h = true) : NoFault (run h) :=
   (fok_run h hl).nofault
@@ -177,5 +191,14 @@ example : LegalHist [.newShape 1, .newPin 2 1 1, .newJunction 4 5,
 
 example : LegalHist [.setTransactionUse false, .newShape 1, .newConn 2 none none false, .moveShape 1,
     .deleteShape 1, .deleteRouter] = true := by decide
+
+/-- non-vacuity: transactions switched off while obstacle, pin and connector actions are queued; the
+    next mutator (a junction constructor, i.e. two `processTransaction` calls) processes them -/
+example : LegalHist [.newShape 1, .newPin 2 1 1, .newJunction 4 5, .newJunction 8 9, .processTransaction,
+      .newConn 3 (some ⟨1, 1⟩) (some ⟨4, 0⟩) true, .moveShape 1, .deleteJunction 8,
+      .setTransactionUse false, .newJunction 6 7, .moveShape 1, .deleteRouter] = true ∧
+    (run [.newShape 1, .newPin 2 1 1, .newJunction 4 5, .newJunction 8 9, .processTransaction,
+      .newConn 3 (some ⟨1, 1⟩) (some ⟨4, 0⟩) true, .moveShape 1, .deleteJunction 8,
+      .setTransactionUse false]).actions.length = 3 := by decide
 
 end AdaptaVerif.Props.C15
